@@ -12,8 +12,8 @@
    code before them is UV.C09.Legacy).  Memory is not a heap: the argument
    buffer of one frame is the sequence of bytes stored so far ([done] up to the write pointer and
    [ahead] beyond it) over a background of [fill] bytes; [hi] is one past the highest argbuf
-   offset stored to.  The memory-region cache is an oracle: an address is readable iff it is the
-   start of one of the C strings / 8-byte words listed in the inputs.
+   offset stored to.  The memory-region cache is a set of half-open ranges (lookup_str): an address is readable iff it lies in the
+   range of one of the C strings / 8-byte words listed in the inputs.
 
    Not modelled: the decimal rendering of floating point values (floats are carried as bits),
    x87 return values (retval/f80), enum names, the 1024-byte limit of replay's text buffer. *)
@@ -86,8 +86,18 @@ Record inputs := {
 Fixpoint assoc {B} (a : N) (l : list (N * B)) : option B :=
   match l with [] => None | (k, v) :: r => if k =? a then Some v else assoc a r end.
 (* check_mem_region: the region cache, as an oracle on the addresses the inputs name *)
+(* check_mem_region / find_mem_region: the readable mappings are half-open ranges [start, end).  The ranges the model
+   knows are the declared objects themselves: a C string at a with n bytes before its NUL is the readable range
+   [a, a + n + 1) (for the harness's page that ends in front of a PROT_NONE page this is the whole mapping), a word at a
+   the range [a, a + 8).  A pointer is dereferenced only if it lies INSIDE such a range; a pointer equal to the end of
+   a range (one past the NUL) is not readable. *)
+Fixpoint lookup_str (l : list (N * list N)) (a : N) : option (list N) :=
+  match l with
+  | [] => None
+  | (k, v) :: r => if (k <=? a) && (a <? k + lenN v + 1) then Some (dropN (a - k) v) else lookup_str r a
+  end.
 Definition readable (inp : inputs) (a : N) : bool :=
-  match assoc a (strs inp) with Some _ => true | None =>
+  match lookup_str (strs inp) a with Some _ => true | None =>
   match assoc a (wrds inp) with Some _ => true | None => false end end.
 
 Definition nthN (l : list N) (i : N) : N := nth (N.to_nat i) l 0.
@@ -141,7 +151,7 @@ Fixpoint struct_regs (inp : inputs) (rs : list Z) (val : list N) : list N * list
   match rs with
   | [] => ([], val)
   | r :: rest =>
-      let val1 := snd (get_register_arg inp TReg 0 r 0 val) in
+      let val1 := snd (get_register_arg inp TReg 0 r 8 val) in      (* reg_spec.size = sizeof(long): movsd for xmm *)
       let '(w, val2) := struct_regs inp rest val1 in
       (takeN 8 val1 ++ w, val2)
   end.
@@ -251,7 +261,7 @@ Definition step (fill : N) (inp : inputs) (is_ret : bool) (st : mst) (s : spec) 
           else emit fill st val ([4; 0] ++ null_str) (ALIGN (4 + 2) 4)
         else
           let src := if readable inp p
-                     then match assoc p (strs inp) with Some c => c ++ [0] | None => [0] end
+                     then match lookup_str (strs inp) p with Some c => c ++ [0] | None => [0] end
                      else bad_ptr_text p ++ [0] in
           let bound := (MAX_SIZE + U32 - m_total st mod U32) mod U32 in
           let '(dst, len) := copy_loop src 0 bound [] 0 in
@@ -261,11 +271,46 @@ Definition step (fill : N) (inp : inputs) (is_ret : bool) (st : mst) (s : spec) 
       else emit fill st val (takeN (ALIGN (s_size s) 4) val) (ALIGN (s_size s) 4)
   end.
 
+(* the pointers one step dereferences (str[0] and what follows; the std::string object): the same guards as [step] *)
+Definition step_derefs (inp : inputs) (is_ret : bool) (st : mst) (s : spec) : list N :=
+  if m_stop st then [] else
+  if negb (Bool.eqb is_ret (s_idx s =? 0)) then [] else
+  let structp := fmt_eqb (s_fmt s) FStruct in
+  if structp && (MAX_SIZE <? m_total st + s_size s) then [] else
+  let fetched : option (list N) :=
+    if is_ret then get_retval inp s (m_val st)
+    else if structp then Some (snd (get_struct_arg inp s (m_val st)))
+    else Some (get_arg inp s (m_val st)) in
+  match fetched with
+  | None => []
+  | Some val =>
+      if is_strfmt (s_fmt s) then
+        if MAX_SIZE <? m_total st + 4 then [] else
+        let p0 := of_le (takeN 8 val) in
+        let obj := match s_fmt s with
+                   | FStdStr => match assoc p0 (wrds inp) with Some _ => [p0] | None => [] end
+                   | _ => [] end in
+        let p := match s_fmt s with
+                 | FStdStr => match assoc p0 (wrds inp) with Some w => w | None => p0 end
+                 | _ => p0 end in
+        obj ++ (if p =? 0 then [] else if readable inp p then [p] else [])
+      else []
+  end.
+
 Definition mst0 : mst :=
   {| m_val := val0; m_total := 0; m_hi := 0; m_done := []; m_ahead := []; m_stop := false; m_unmodelled := false |}.
 
 Definition run (fill : N) (inp : inputs) (is_ret : bool) (specs : list spec) : mst :=
   fold_left (step fill inp is_ret) specs mst0.
+
+Fixpoint derefs_from (fill : N) (inp : inputs) (is_ret : bool) (specs : list spec) (st : mst) : list N :=
+  match specs with
+  | [] => []
+  | s :: r => step_derefs inp is_ret st s ++ derefs_from fill inp is_ret r (step fill inp is_ret st s)
+  end.
+(* every pointer save_to_argbuf dereferences while capturing the arguments / the return value of one call *)
+Definition run_derefs (fill : N) (inp : inputs) (is_ret : bool) (specs : list spec) : list N :=
+  derefs_from fill inp is_ret specs mst0.
 
 (* save_to_argbuf's return value: None = -1U *)
 Definition result (st : mst) : option N := if MAX_SIZE <? m_total st then None else Some (m_total st).
@@ -459,6 +504,57 @@ Definition show_ret (syms : symtab) (specs : list spec) (data : option (list N))
   | Some d => [32; 61; 32] ++ show_loop syms true specs d true ++ [59]
   end.
 
+(* --- the same text inside replay's buffer: char args[1024] (print_graph_rstack), written piece by piece by
+   print_args / print_char (cmds/replay.c, after the fix: commits 618ee80 / 0cdad2d): a piece that does not fit is
+   dropped as a whole and nothing more is taken; the loop over the arguments stops when fewer than 2 characters are left *)
+Definition TEXT_SIZE : N := 1024.
+Definition put (st : N * list N) (p : list N) : N * list N :=          (* st = (characters that still fit, text) *)
+  let '(room, out) := st in if lenN p <=? room then (room - lenN p, out ++ p) else (0, out).
+
+(* the pieces of one argument, in the order they are printed *)
+Definition show_pieces (syms : symtab) (s : spec) (data : list N) : list (list N) * N :=
+  match s_fmt s with
+  | FStr | FStdStr =>
+      let slen := of_le (takeN 2 data) in
+      let body := takeN slen (dropN 2 data) in
+      ((if (slen =? 4) && list_eqb body [255; 255; 255; 255] then [null_str]
+        else let str := cstr body in
+             [quote] ++ (match after_high str with _ :: _ => [str] | [] => map escaped_char str end) ++ [quote])
+       ++ (match s_fmt s with FStdStr => [[115]] | _ => [] end),
+       ALIGN (slen + 2) 4)
+  | FChar => ([squote; escaped_char (nthN data 0); squote], ALIGN (s_size s) 4)
+  | FStruct =>
+      ([if list_eqb (s_name s) [] || list_eqb (s_name s) lambda_name then [] else s_name s;
+        if s_size s =? 0 then [123; 125] else [123; 46; 46; 46; 125]], ALIGN (s_size s) 4)
+  | _ => ([fst (show_one syms s data)], snd (show_one syms s data))
+  end.
+
+Fixpoint show_loop_b (syms : symtab) (is_ret : bool) (specs : list spec) (data : list N) (first : bool)
+                     (st : N * list N) : N * list N :=
+  match specs with
+  | [] => st
+  | s :: r =>
+      if negb (Bool.eqb is_ret (s_idx s =? 0)) then show_loop_b syms is_ret r data first st
+      else
+        let st1 := if first then st else put st comma in
+        let '(ps, adv) := show_pieces syms s data in
+        let st2 := fold_left put ps st1 in
+        if (fst st2 <=? 1) || is_ret then st2                          (* `if (len <= 2) break;` / first retval only *)
+        else show_loop_b syms is_ret r (dropN adv data) false st2
+  end.
+
+Definition show_args_b (syms : symtab) (specs : list spec) (data : option (list N)) : list N :=
+  match data with
+  | None => [40; 41]
+  | Some d => snd (put (show_loop_b syms false specs d true (put (TEXT_SIZE - 1, []) [40])) [41])
+  end.
+Definition show_ret_b (syms : symtab) (specs : list spec) (data : option (list N)) : list N :=
+  match data with
+  | None => []
+  | Some d => let st := show_loop_b syms true specs d true (put (TEXT_SIZE - 1, []) [32; 61; 32]) in
+              snd st ++ (if 1 <=? fst st then [59] else [])               (* `if (needs_semi_colon && len > 1)` *)
+  end.
+
 (* does any spec of this direction use a format whose text is not modelled? *)
 Definition text_modelled (is_ret : bool) (specs : list spec) : bool :=
   forallb (fun s => negb (Bool.eqb is_ret (s_idx s =? 0)) ||
@@ -502,8 +598,8 @@ Definition model_call (syms : symtab) (c : call) : observation :=
                  enc_rec 0 (c_t1 c) UFTRACE_ENTRY 1 (c_child c) None ++
                  enc_rec 0 (c_t2 c) UFTRACE_EXIT 1 (c_child c) None ++
                  enc_rec 0 (c_t3 c) UFTRACE_EXIT 0 (c_addr c) px;
-     o_args_text := show_args syms (c_specs c) pe;
-     o_ret_text := show_ret syms (c_specs c) px |}.
+     o_args_text := show_args_b syms (c_specs c) pe;
+     o_ret_text := show_ret_b syms (c_specs c) px |}.
 
 Definition unmodelled (c : call) : bool :=
   (existsb (fun s => (s_idx s =? 0) && fmt_eqb (s_fmt s) FFloat && (s_size s =? 10)) (c_specs c)).
@@ -614,12 +710,35 @@ Definition has_float (l : list (spec * aval)) : bool :=
   existsb (fun p => match snd p with AFlt _ => true | _ => false end) l.
 
 (* the argument text of replay shows the values passed (or nothing at all when they cannot fit) *)
+(* a text that (nearly) fills replay's 1 KiB buffer may stop early: every value shown completely must be right, the
+   last one may be cut *)
+Definition TEXT_CUT : N := 900.      (* a piece is at most ARG_STR_MAX + 2 characters: a cut text is longer than 1023 - 100 *)
+Fixpoint match_cut (l : list (spec * aval)) (txt : list N) (first : bool) : bool :=
+  match l with
+  | [] => match txt with [] => true | [41] => true | _ => false end
+  | (s, a) :: r =>
+      match txt with
+      | [] => true                                  (* the buffer was full *)
+      | [41] => true                                (* the loop stopped (fewer than 2 characters left), ")" still fitted *)
+      | _ =>
+        let txt1 := if first then Some txt
+                    else if prefixb comma txt then Some (skipn 2 txt) else if prefixb txt comma then Some [] else None in
+        match txt1 with
+        | None => false
+        | Some [] => true
+        | Some t => anyb (fun c => if prefixb c t then match_cut r (skipn (length c) t) false else prefixb t c) (accept s a)
+        end
+      end
+  end.
 Definition ok_args (actual : list (spec * aval)) (txt : list N) : bool :=
   match actual with
   | [] => list_eqb txt [40; 41]
   | _ =>
       if has_float actual then true else
-      if fits actual then match strip_paren txt with Some t => match_vals actual t true | None => false end
+      if fits actual then
+        (match strip_paren txt with Some t => match_vals actual t true | None => false end) ||
+        ((TEXT_CUT <=? lenN txt) && (lenN txt <? TEXT_SIZE) &&
+         match txt with 40 :: t => match_cut actual t true | _ => false end)
       else list_eqb txt [40; 41]
   end.
 (* replay shows the first return-value spec only *)
@@ -715,7 +834,7 @@ Definition conv (l : lang) (v : sitem) : oitem :=
       | Py => OInt (if size =? 8 then Z.of_N raw else signed (8 * size) raw)   (* val.c / val.s / val.i; 8 bytes: unsigned *)
       | Lua => OInt (signed (8 * size) raw)                                      (* lua_pushinteger, then a double *)
       end
-  | VFlt size raw => OFlt size raw
+  | VFlt size raw => if size =? 10 then OFlt 10 0 else OFlt size raw     (* (double)long double: not compared bit by bit *)
   | VStr b => match l with Py => if utf8_valid b then OStr b else OInvalid | Lua => OStr b end
   | VNone => ONone
   end.
@@ -799,11 +918,14 @@ Definition ok_sitem (l : lang) (s : spec) (a : aval) (o : oitem) : bool :=
   | AStr str => str_ok (trunc_str str)
   | ANull => str_ok null_str
   | ABad p => str_ok (bad_ptr_text p)
-  | AFlt bits' => match o with OFlt sz b => (sz =? s_size s) && (b =? bits' mod 2 ^ bits) | _ => false end
+  | AFlt bits' => match o with
+                  | OFlt sz b => (sz =? s_size s) && ((sz =? 10) || (b =? bits' mod 2 ^ bits))
+                  | _ => false
+                  end
   | AStruct => str_ok (struct_text (s_name s))
   | AScr ints strs flts =>
       match o with
-      | OInt z => existsb (fun c => oitem_eqb l (OInt c) o) ints
+      | OInt z => existsb (fun c => oitem_eqb l (OInt c) o || ((z - c) mod 2 ^ 64 =? 0)%Z) ints   (* the same 64 bits *)
       | OStr x => existsb (list_eqb x) strs
       | OFlt sz b => existsb (fun p => (fst p =? sz) && (snd p =? b)) flts
       | _ => false
@@ -843,7 +965,7 @@ Definition judge_of (c : call) (o : observation) (aargs aret : list aval) : judg
 Definition Sp (idx : N) (f : fmt) (size : N) (t : atype) (u : N) : spec :=
   {| s_idx := idx; s_fmt := f; s_size := size; s_type := t; s_u := Z.of_N u; s_regs := []; s_name := [] |}.
 Definition AStrAt (inp : inputs) (a : N) : aval :=       (* the string the inputs hold at address a *)
-  match assoc a (strs inp) with Some s => AStr s | None => ABad a end.
+  match lookup_str (strs inp) a with Some s => AStr s | None => ABad a end.
 (* the word the caller placed in register k (0 = rdi) / stack slot k (1 = first) / retval[k] *)
 Definition ARegAt (inp : inputs) (k : N) : aval := AInt (nthN (regs inp) k).
 Definition AStkAt (inp : inputs) (k : N) : aval := AInt (nthN (stk inp) (k - 1)).
